@@ -19,6 +19,7 @@ EXPLANATION = (
     " C10.F2 also: the disclosure list is exactly parts[1..len-1] and the KB-JWT exactly the last part of input.split('~') (position algebra over iterator / index / slice-pattern forms); an Option field that one parser always fills with Some while the other may leave None, assumed None (A6 over the field) with every optional constructor check requested, reaches no Ok exit of SDJWTVerifier::new."
     " C10.F2 is judged on the parsers\u2019 views; sign_alg agreement compares derivations (the same computation over the stored token or its header part) and is vacuous when no algorithm is stored. C10.F3 json-disclosures: the envelope\u2019s `disclosures` is a whole copy of hs_disclosures (assignment or clone_from), never edited in place."
     " C10.F3 json-disclosures-always: every path to the serialisation of the JSON envelope passes the whole copy (assignment, clone_from or mem::take) of the selected list."
+    " C10.F4: in the (derived) Serialize impl of SDJWTJson every member that is not written on every path to `end` (skip_serializing_if) must be optional for the Deserialize visitor (no missing_field::<non-Option>), and the member names written are the names read. C10.F2 input-verbatim: no normalisation of the presented string in front of or inside the parsers (identity conversions only from the public entries' parameter to what is deserialised / split)."
 )
 ASSUMPTIONS = [
     "value-level equivalence of the two parsers on every input string is not decided; only that they fill the same state and that nothing after parsing can observe the format",
@@ -522,6 +523,34 @@ def input_verbatim(ctx, fx, ps, rule):
     if not targets:
         ctx.missing(rule, "parser input", "the parsers take no single string parameter")
         return
+    # inside the parsers: what is deserialised / split is the parameter as it is
+    for P in ps:
+        if P.name not in targets:
+            continue
+        V = fx.view(P.name)
+        vv = vals(V)
+        sp = targets[P.name]
+        ncons = 0
+        for b, t in V.calls():
+            n = vv.call_node(b)
+            r = (t.get("resolved") or t.get("callee") or "")
+            cons = None
+            if r.startswith(("serde_json::from_str", "serde_json::from_slice", "serde_json::de::from_")) and n.kids:
+                cons = n.kids[0]
+            elif t.get("name") in ("split", "splitn", "rsplit", "rsplitn", "split_once", "rsplit_once", "split_terminator", "split_inclusive") and (t.get("self_ty") or "").lstrip("&") == "str" and n.kids:
+                cons = n.kids[0]
+            if cons is None or sp not in common.param_roots(cons):
+                continue
+            if any(x.kind == "call" and x.d["term"].get("name") in ("split", "next", "nth", "index", "get") for x in walk(cons)):
+                continue   # a part of the input (the JWT, a segment): judged by the position algebra / token-verbatim clauses
+            ncons += 1
+            alt = common.not_verbatim(cons, lambda x: x.kind == "param" and x.fn is V)
+            what = "input-verbatim:%s" % P.name.split("::")[-1]
+            if alt is None:
+                ctx.ok(rule, V, what, "the presented string is %s as it is" % ("deserialised" if r.startswith("serde_json") else "split"), line=t.get("line"))
+            else:
+                ctx.finding(rule, V, what, "the presented string is rewritten (%s) before it is %s: this serialization accepts inputs whose transcoding to the other one is rejected"
+                            % (alt.d["term"].get("name"), "deserialised" if r.startswith("serde_json") else "split"), line=t.get("line"))
     nhop = 0
     work, seen = list(targets), set()
     while work:
